@@ -167,3 +167,8 @@ def in_requested_order(x, y, orders):
     if a1 != b1:
         return a1 < b1 if orders[1].ordering_direction.value == 0 else a1 > b1
     return True
+
+
+def expired(record):
+    """the record's validity period (seconds) after its ITS time stamp (ms) lies before the current LDM time"""
+    return record['timeValidity'] * 1000 + record['timestamp'] < its_now()
